@@ -200,15 +200,56 @@ impl Check for C08 {
                 cfg.buffered.push(g);
             }
         }
-        Case { rc: ReadCase { spec, input: Arc::new(gi.bytes), cfg, script, driver: Driver::UntilEnd { extra: 0 }, class: gi.class }, sweep }
+        let mut rc = ReadCase { spec, input: Arc::new(gi.bytes), cfg, script, driver: Driver::UntilEnd { extra: 0 }, class: gi.class };
+        // streaming sub-batch (one case in eight): the source reports a temporary end of file at tag boundaries
+        // while EOF closing is off, and the caller switches closing on once the source is really exhausted (as
+        // the async wrapper does): buffering that is interrupted and resumed must roll up the same children
+        if rng.chance(1, 8) && !rc.input.is_empty() {
+            let unb = IterCfg { buffered: vec![], eof_end: false, capacity: None, ..rc.cfg.clone() };
+            let bounds: Vec<usize> = crate::harness::slice_run(&rc.spec, &rc.input, &unb).ok_prefix().iter().filter(|(t, o)| !t.is_end() && *o > 0).map(|(_, o)| *o).collect();
+            if !bounds.is_empty() {
+                rc.cfg.eof_end = false;
+                rc.driver = Driver::StreamingThenClose;
+                for _ in 0..rng.range(1, 4) {
+                    let b = *rng.pick(&bounds);
+                    for _ in 0..rng.range(1, 2) {
+                        rc.script.pauses.push(b);
+                    }
+                }
+            }
+        }
+        Case { rc, sweep }
     }
 
     fn exec(&self, c: &Case, st: &mut Stats) -> Result<ExecOk, Fail> {
-        if !c.rc.cfg.eof_end {
+        let streaming = matches!(c.rc.driver, Driver::StreamingThenClose);
+        if !c.rc.cfg.eof_end && !streaming {
             st.inc("out_of_scope");
             return Ok(ExecOk { nontrivial: false });
         }
-        let u = run(&c.rc, &[]);
+        if streaming {
+            // temporary EOF is in scope only at tag boundaries (this matters for shrunk cases)
+            let unb = IterCfg { buffered: vec![], eof_end: false, capacity: None, ..c.rc.cfg.clone() };
+            let bounds: Vec<usize> = crate::harness::slice_run(&c.rc.spec, &c.rc.input, &unb).ok_prefix().iter().filter(|(t, o)| !t.is_end() && *o > 0).map(|(_, o)| *o).collect();
+            if c.rc.script.pauses.iter().any(|p| !bounds.contains(p)) {
+                st.inc("out_of_scope");
+                return Ok(ExecOk { nontrivial: false });
+            }
+            st.inc("streaming_runs");
+        }
+        // the unbuffered reference of a streaming case is the plain parse (no temporary EOF, closing on): what the
+        // schedule does to an unbuffered parse is C04's business
+        let plain;
+        let u = if streaming {
+            let mut r = c.rc.clone();
+            r.cfg.eof_end = true;
+            r.script.pauses.clear();
+            r.driver = Driver::UntilEnd { extra: 0 };
+            plain = r;
+            run(&plain, &[])
+        } else {
+            run(&c.rc, &[])
+        };
         st.inc(match c.rc.class {
             "valid" => "input_valid",
             "byte-faulted" => "input_byte_faulted",
@@ -265,12 +306,12 @@ impl Check for C08 {
         v
     }
     fn rule(&self) -> &'static str {
-        "One case = specification (global and nested-in-themselves masters allowed) + bytes (valid / truncated / byte-faulted; known- and unknown-size encodings) + a buffered-id set (drawn, or ALL non-empty subsets of the master ids occurring in the input when there are at most 6) + tolerance set + delivery schedule; the buffered parse, with every Full replaced by Start/children/End, is compared with the unbuffered parse of the same bytes (equal and clean, or a prefix followed by an error), including all observable offsets. Non-trivial: at least one Full item was emitted. Distinct: FNV-1a fingerprint of bytes + configuration + schedule."
+        "One case = specification (global and nested-in-themselves masters allowed) + bytes (valid / truncated / byte-faulted; known- and unknown-size encodings) + a buffered-id set (drawn, or ALL non-empty subsets of the master ids occurring in the input when there are at most 6) + tolerance set + delivery schedule; the buffered parse, with every Full replaced by Start/children/End, is compared with the unbuffered parse of the same bytes (equal and clean, or a prefix followed by an error), including all observable offsets. One case in eight is a streaming one: EOF closing off, temporary end-of-file reports at tag boundaries (also inside a master being buffered), the caller polling on and switching closing on once the source is exhausted; reference = the plain unbuffered parse. Non-trivial: at least one Full item was emitted. Distinct: FNV-1a fingerprint of bytes + configuration + schedule."
     }
     fn assumptions(&self) -> Vec<&'static str> {
         vec!["default end-of-stream closing, as the property does not range over that switch", "both runs use the same delivery schedule; schedule dependence as such is C04's subject"]
     }
     fn expected_probes(&self) -> Vec<&'static str> {
-        vec!["probe_full_items", "probe_nested_full", "probe_error_ending", "probe_error_inside_buffered_master", "sweeps"]
+        vec!["probe_full_items", "probe_nested_full", "probe_error_ending", "probe_error_inside_buffered_master", "sweeps", "streaming_runs"]
     }
 }
